@@ -89,6 +89,14 @@ func (w *world) stakingTxs() []txT {
 		{Name: "gov-submit(a2 no funds)", Signer: a2, Method: governance.MethodSubmitProposal, Body: up},
 		{Name: "gov-vote(e2,#1,yes)", Signer: e2, Method: governance.MethodCastVote, Body: governance.ProposalVote{ID: 1, Vote: governance.VoteYes}},
 		{Name: "gov-vote(e1,#1,no)", Signer: e1, Method: governance.MethodCastVote, Body: governance.ProposalVote{ID: 1, Vote: governance.VoteNo}},
+		{Name: "gov-submit-mindeposit(e1,500)", Signer: e1, Method: governance.MethodSubmitProposal, Body: governance.ProposalContent{ChangeParameters: &governance.ChangeParametersProposal{
+			Module:  governance.ModuleName,
+			Changes: cbor.Marshal(governance.ConsensusParameterChanges{MinProposalDeposit: func() *quantity.Quantity { v := qq(500); return &v }()}),
+		}}},
+		{Name: "gov-vote(e1,#1,yes)", Signer: e1, Method: governance.MethodCastVote, Body: governance.ProposalVote{ID: 1, Vote: governance.VoteYes}},
+		{Name: "gov-vote(e0,#1,yes)", Signer: e0, Method: governance.MethodCastVote, Body: governance.ProposalVote{ID: 1, Vote: governance.VoteYes}},
+		{Name: "gov-vote(e2,#2,yes)", Signer: e2, Method: governance.MethodCastVote, Body: governance.ProposalVote{ID: 2, Vote: governance.VoteYes}},
+		{Name: "gov-vote(e1,#2,yes)", Signer: e1, Method: governance.MethodCastVote, Body: governance.ProposalVote{ID: 2, Vote: governance.VoteYes}},
 		{Name: "gov-vote(a0 not validator,#1)", Signer: a0, Method: governance.MethodCastVote, Body: governance.ProposalVote{ID: 1, Vote: governance.VoteYes}},
 	}
 }
